@@ -306,19 +306,23 @@ func (w *Workspace) refreshIncludeTreeLocked() {
 	}
 
 	for {
-		reachable := w.computeReachableLocked()
+		reachable, order := w.computeReachableLocked()
 		w.removeUnreachableLocked(reachable)
-		added := w.addMissingReachableLocked(reachable)
+		added := w.addMissingReachableLocked(order)
 		if !added {
 			return
 		}
 	}
 }
 
-func (w *Workspace) computeReachableLocked() map[string]bool {
+// computeReachableLocked returns the files reachable from the root journal,
+// as a set and in the order in which following the include directives finds
+// them.
+func (w *Workspace) computeReachableLocked() (map[string]bool, []string) {
 	reachable := make(map[string]bool)
+	var order []string
 	if w.rootJournalPath == "" {
-		return reachable
+		return reachable, order
 	}
 	queue := []string{w.rootJournalPath}
 	for len(queue) > 0 {
@@ -328,13 +332,14 @@ func (w *Workspace) computeReachableLocked() map[string]bool {
 			continue
 		}
 		reachable[path] = true
+		order = append(order, path)
 		for _, inc := range w.includeGraph[path] {
 			if !reachable[inc] {
 				queue = append(queue, inc)
 			}
 		}
 	}
-	return reachable
+	return reachable, order
 }
 
 func (w *Workspace) removeUnreachableLocked(reachable map[string]bool) {
@@ -359,9 +364,12 @@ func (w *Workspace) removeUnreachableLocked(reachable map[string]bool) {
 	}
 }
 
-func (w *Workspace) addMissingReachableLocked(reachable map[string]bool) bool {
+// addMissingReachableLocked takes the files in a fixed order: the order in
+// which they join decides their place in FileOrder, and with it whose posting
+// template or commodity format wins when two files disagree.
+func (w *Workspace) addMissingReachableLocked(reachable []string) bool {
 	added := false
-	for path := range reachable {
+	for _, path := range reachable {
 		if w.index.FileIndex(path) != nil {
 			continue
 		}
